@@ -24,7 +24,7 @@ HORIZON = 8
 
 def bounds(tier):
     return {'full_product': 'depth 3 on 2-element chains' if tier == 'quick' else 'depth 4 on 2-element, depth 3 on 3-element chains',
-            'deviation_bound': '2 on 2-element chains, 1 on the rest' if tier == 'quick' else '2 on chains <= 4 elements, 1 on 5-element chains',
+            'deviation_bound': '2 on 2-element chains, 1 on the rest' if tier == 'quick' else '2 on chains <= 3 elements, 1 on 4- and 5-element chains',
             'deviation_horizon': HORIZON, 'chain_elements_max': 4 if tier == 'quick' else 5,
             'duty_alphabet': DUTIES, 'load_alphabet_x_stall': LOADS}
 
@@ -33,7 +33,7 @@ def shards(tier):
     nmax = 4 if tier == 'quick' else 5
     out = []
     for c in menu.chains(2, nmax):
-        P = 16 if len(c) + 1 <= 2 or (tier != 'quick' and len(c) + 1 <= 4) else 1
+        P = 16 if len(c) + 1 <= 2 or (tier != 'quick' and len(c) + 1 <= 3) else 1
         for p in range(P):
             out.append({'chain': c, 'mode': 'dev', 'part': [p, P]})
         if len(c) + 1 <= (2 if tier == 'quick' else 3):
@@ -137,7 +137,7 @@ def run_shard(shard, tier):
             if tier == 'quick':
                 b = 2 if nel <= 2 else 1
             else:
-                b = 2 if nel <= 4 else 1
+                b = 2 if nel <= 3 else 1
             for idx, s in enumerate(deviations(HORIZON, len(ENV), b)):
                 if idx % P != p:
                     continue
